@@ -256,7 +256,9 @@ func GenQueries(r *rand.Rand, ids []uint64, n int) []Query {
 		func() Query {
 			return Query{fmt.Sprintf(`{"group":%s}`, pick(r, gr, "int", "bigint", "negint")), "eq-int", "group"}
 		},
-		func() Query { return Query{fmt.Sprintf(`{"type":[%s,%s]}`, pick(r, ty), pick(r, ty)), "list-str", "type"} },
+		func() Query {
+			return Query{fmt.Sprintf(`{"type":[%s,%s]}`, pick(r, ty), pick(r, ty)), "list-str", "type"}
+		},
 		func() Query {
 			return Query{fmt.Sprintf(`{"group":[%s,%s,7]}`, pick(r, gr, "int", "bigint"), pick(r, gr, "int", "negint")), "list-int", "group"}
 		},
